@@ -48,6 +48,13 @@ Inductive op :=
 | Burst (mode : N) (k n : nat)     (* k StartHeartbeat calls without any parking in between (mode 0: back to back from
                                       one goroutine on one P, mode 1: k goroutines released together), then the
                                       streams run freely until n refreshes happened *)
+| First (mode : N) (k : nat)       (* on k further fresh entities of the device (never used before, own DeviceDiagnosis
+                                      feature, 100 ms): AddFunctionType(heartbeat) and, from a spinning start together
+                                      with it, the entity's first other access to its heartbeat (mode 0
+                                      IsHeartbeatRunning, 1 HeartbeatManager(), 2 StartHeartbeat); then the heartbeat runs,
+                                      is stopped (StopHeartbeat / RemoveEntity) and watched for three periods.  The two
+                                      calls compose sequentially in either order to "one manager, one stream, stoppable"
+                                      (Properties/C16.v, C16_first_use_orders); nothing of it touches this entity *)
 | Sub                              (* the peer subscribes to the DeviceDiagnosis feature *)
 | Unsub
 | Read.                            (* DataCopy(heartbeat) *)
@@ -74,6 +81,8 @@ Inductive obs :=
                                       refreshed during the free run; fast = the n refreshes came quicker than one
                                       stream can produce them; c = last counter; nn = notifies to the peer for
                                       these refreshes; mono = the counters increased strictly *)
+| Firsted (notrunning leaky : N)   (* of the k fresh entities: how many did not report a running heartbeat after the
+                                      overlapped first use, how many were refreshed more than once after their stop *)
 | Stuck                            (* a call did not return although nobody holds stopMux, or a resumed stream
                                       neither refreshed nor exited: never produced by the model *)
 | SubR (b : bool)                  (* the peer is subscribed now *)
@@ -315,6 +324,7 @@ Definition step (s : st) (o : op) : st * list obs :=
       | Tick g => step_tick s g
       | Run g k => if Nat.leb 2 k && Nat.leb k max_run then run_ticks k s g else (s, [NotRunnable])
       | Burst _ k n => step_burst s k n
+      | First _ _ => (s, [Firsted 0 0])
       | Sub => let b := subs s || negb (removed s) in (set_subs s b, [SubR b])
       | Unsub => let b := subs s && removed s in (set_subs s b, [SubR b])
       | Read => (s, [Data (data s)])
@@ -388,6 +398,7 @@ Definition step_pinned (ps : pst) (o : op) : pst * list obs :=
         else ({| p_s := set_streams s (remove_g g (streams s)); p_thr := thr |}, [Panic 2])
       else ({| p_s := s; p_thr := thr |}, [NotRunnable])
   | Run _ _ | Burst _ _ _ => ({| p_s := s; p_thr := thr |}, [NotRunnable])
+  | First _ _ => ({| p_s := s; p_thr := thr |}, [Firsted 0 0])
   | Sub => let b := subs s || negb (removed s) in ({| p_s := set_subs s b; p_thr := thr |}, [SubR b])
   | Unsub => let b := subs s && removed s in ({| p_s := set_subs s b; p_thr := thr |}, [SubR b])
   | Read => ({| p_s := s; p_thr := thr |}, [Data (data s)])
@@ -413,7 +424,7 @@ Fixpoint run_pinned (s : pst) (ops : list op) : pst * list (op * list obs) :=
         8 m k n    Burst m k n;   0 t w = Setup with a peer connection that takes w ms per write
    obs: 0 Ready, 1 Busy, 2 Blocked, 3 NotRunnable, 4 h Parked, 5 Done, 6 b RetB, 7 ErrNoFeature,
         8 t Acquired, 9 g Started, 10 c n fresh tmo Refreshed, 11 Exited, 12 p late Timing,
-        13 site Panic, 14 b SubR, 15 [c] Data, 16 g live fast c nn mono Bursted, 17 Stuck *)
+        13 site Panic, 14 b SubR, 15 [c] Data, 16 g live fast c nn mono Bursted, 17 Stuck, 18 a b Firsted;  op 9 m k = First m k *)
 Definition parse_call (z : Z) : option call :=
   match z with
   | 0 => Some CIsRunning | 1 => Some CStop | 2 => Some CStart | 3 => Some CAddFn | 4 => Some CRemoveEntity
@@ -424,11 +435,13 @@ Definition parse_op (l : list Z) : option op :=
   match l with
   | [0; t] => Some (Setup t)
   | [0; t; _] => Some (Setup t)    (* the peer's connection takes that many ms per write (runtime only) *)
+  | [0; t; _; _] => Some (Setup t) (* ... and a peer that cannot be notified subscribed before it (runtime only) *)
   | [1; t; c] => match parse_call c with Some c => Some (Call (Nz t) c) | None => None end
   | [2; t] => Some (Resume (Nz t))
   | [3; g] => Some (Tick (Nz g))
   | [4; g; k] => Some (Run (Nz g) (Z.to_nat k))
   | [8; m; k; n] => Some (Burst (Nz m) (Z.to_nat k) (Z.to_nat n))
+  | [9; m; k] => Some (First (Nz m) (Z.to_nat k))
   | [5] => Some Sub
   | [6] => Some Unsub
   | [7] => Some Read
@@ -455,6 +468,7 @@ Definition print_obs (o : obs) : list Z :=
   | SubR b => [14; Zb b]
   | Stuck => [17]
   | Bursted g l f c nn m => [16; Zn g; Zn l; Zb f; Zn c; Zn nn; Zb m]
+  | Firsted a b => [18; Zn a; Zn b]
   | Data None => [15]
   | Data (Some c) => [15; Zn c]
   end.
@@ -478,6 +492,7 @@ Definition parse_obs (l : list Z) : option obs :=
   | [14; b] => Some (SubR (bZ b))
   | [17] => Some Stuck
   | [16; g; l; f; c; nn; m] => Some (Bursted (Nz g) (Nz l) (bZ f) (Nz c) (Nz nn) (bZ m))
+  | [18; a; b] => Some (Firsted (Nz a) (Nz b))
   | [15] => Some (Data None)
   | [15; c] => Some (Data (Some (Nz c)))
   | _ => None
